@@ -66,19 +66,15 @@ def f2_match(T):
 
 
 def f11_match(T):
-    """F11: warren, an iteration that ends 'stable' with surplus > omega, followed by the exclusion of a
-    candidate that is not the lowest by more than omega."""
+    """F11: warren, an iteration ends 'stable' with a surplus above omega and a candidate is then excluded
+    (the exclusion is decided with that surplus untransferred)."""
     if T['rule'] != 'warren':
         return False
     acts = T['acts']
     for k, a in enumerate(acts):
-        if a['mc'] == 'iterate_stable' and a['surplus'] > T['omega']:
-            for b in acts[k + 1:k + 3]:
-                if b['tag'] == 'defeat' and b['subj']:
-                    hop = [c for c in range(T['nc']) if a['st'][c] == 'H']
-                    mn = min(a['vote'][c] for c in hop)
-                    if a['vote'][b['subj'] - 1] - mn > T['omega']:
-                        return True
+        if a['mc'] == 'iterate_stable' and a['surplus'] - T['omega'] >= T.get('geps', 1):
+            if any(b['tag'] == 'defeat' and b['mc'] != 'defeat_remaining' for b in acts[k + 1:k + 4]):
+                return True
     return False
 
 
